@@ -221,7 +221,18 @@ pub fn finish(
             (k, v)
         })
         .collect();
+    // Confirmation costs fresh processes (and, for history-dependent failures, re-running the
+    // scenarios that came before): a handful of confirmed violations decides the run, the
+    // remaining candidate signatures are counted, not confirmed.
+    const MAX_REPORTED: usize = 6;
+    const MAX_HISTORY_SEARCHES: usize = 8;
+    let mut history_searches = 0usize;
+    let mut unconfirmed_candidates = 0usize;
     for (sig, v) in &by_sig {
+        if new_violations >= MAX_REPORTED {
+            unconfirmed_candidates += 1;
+            continue;
+        }
         if v.case.is_null() {
             not_reproduced.push(format!("{} ({}): the scenario could not be regenerated", v.clause, v.detail));
             continue;
@@ -238,34 +249,64 @@ pub fn finish(
         // the explicit case alone; if that does not fail, the case preceded by the scenarios
         // that ran before it in its shard (windows of growing length). Hidden state in the code
         // under test (statics, caches, thread-locals) is thereby part of a replayable history.
+        // A check may attach a FALLBACK form of the case under "fallback": the unminimised case
+        // together with the exact history it had inside its own scenario (minimising a case in
+        // the shard changes its relation to state left by earlier calls, so the minimised form
+        // of a history-dependent failure often passes).
+        let fallback: Option<Value> = v.case.get("fallback").cloned().filter(|f| !f.is_null());
+        let primary: Value = {
+            let mut c = v.case.clone();
+            if let Some(o) = c.as_object_mut() {
+                o.remove("fallback");
+            }
+            c
+        };
         let mut confirmed: Option<Value> = None;
-        let alone = judge_in_fresh_process(&json!({"cases": [v.case]}));
-        if alone.iter().any(|(c, _)| *c == v.clause) {
-            confirmed = Some(v.case.clone());
+        let fails_same = |cases: Vec<Value>| -> bool { judge_in_fresh_process(&json!({"cases": cases})).iter().any(|(c, _)| *c == v.clause) };
+        if fails_same(vec![primary.clone()]) {
+            confirmed = Some(primary.clone());
+        } else if history_searches >= MAX_HISTORY_SEARCHES {
+            unconfirmed_candidates += 1;
+            continue;
+        } else if fallback.as_ref().map(|f| fails_same(vec![f.clone()])).unwrap_or(false) {
+            history_searches += 1;
+            confirmed = fallback.clone();
         } else if let Some((shard, run)) = v.origin {
-            for window in [1usize, 2, 4, 8, 16, 64, usize::MAX] {
+            history_searches += 1;
+            'windows: for window in [1usize, 2, 4, 8, 16, 64, usize::MAX] {
                 let lo = run.saturating_sub(window);
-                let mut cases: Vec<Value> = (lo..run).filter_map(|r| history(shard, r)).collect();
-                if cases.is_empty() {
+                let earlier: Vec<Value> = (lo..run).filter_map(|r| history(shard, r)).collect();
+                if earlier.is_empty() {
                     continue;
                 }
-                // the scenario of the violation itself, then the (minimised) failing case
-                if let Some(own) = history(shard, run) {
-                    cases.push(own);
+                // form A: earlier scenarios, the scenario of the violation itself, the minimised case;
+                // form B: earlier scenarios, then the fallback (which carries its own in-scenario history)
+                let mut forms: Vec<(Vec<Value>, Value)> = Vec::new();
+                {
+                    let mut h = earlier.clone();
+                    if let Some(own) = history(shard, run) {
+                        h.push(own);
+                    }
+                    forms.push((h, primary.clone()));
                 }
-                cases.push(v.case.clone());
-                let got = judge_in_fresh_process(&json!({"cases": cases}));
-                if got.iter().any(|(c, _)| *c == v.clause) {
+                if let Some(f) = &fallback {
+                    forms.push((earlier.clone(), f.clone()));
+                }
+                for (hist0, last_case) in forms {
+                    let mut all = hist0.clone();
+                    all.push(last_case.clone());
+                    if !fails_same(all) {
+                        continue;
+                    }
                     // shrink the history: usually one or two earlier scenarios matter. Try single
                     // earlier cases first, then drop halves (each trial is a fresh process).
-                    let last_case = cases.pop().unwrap();
-                    let mut hist = cases;
+                    let mut hist = hist0;
                     let mut budget = 14;
                     let fails_with = |h: &[Value], budget: &mut i32| -> bool {
                         *budget -= 1;
                         let mut all = h.to_vec();
                         all.push(last_case.clone());
-                        judge_in_fresh_process(&json!({"cases": all})).iter().any(|(c, _)| *c == v.clause)
+                        fails_same(all)
                     };
                     let mut shrunk = false;
                     for k in 0..hist.len().min(6) {
@@ -291,18 +332,20 @@ pub fn finish(
                             break;
                         }
                     }
-                    let mut cases = hist;
-                    cases.push(last_case);
-                    let n = cases.len();
-                    let last = cases.pop().unwrap();
-                    let mut with_history = last.clone();
-                    with_history["history"] = json!(cases);
+                    let n = hist.len();
+                    let mut with_history = last_case.clone();
+                    // the last case may carry a history of its own (in-scenario prefix): keep it last
+                    let mut full: Vec<Value> = hist;
+                    if let Some(own) = with_history.get("history").and_then(|h| h.as_array()).cloned() {
+                        full.extend(own);
+                    }
+                    with_history["history"] = json!(full);
                     with_history["history_note"] = json!(format!(
-                        "the failing case alone passes in a fresh process; it fails after the {} case(s) in 'history' (the scenarios that ran before it in shard {shard}) have been executed in the same process: the code under test keeps state between calls",
-                        n - 1
+                        "the failing case alone passes in a fresh process; it fails after the case(s) in 'history' have been executed in the same process ({} earlier scenario(s) of shard {shard}, plus the calls that preceded it inside its own scenario if listed): the code under test keeps state between calls",
+                        n
                     ));
                     confirmed = Some(with_history);
-                    break;
+                    break 'windows;
                 }
                 if lo == 0 {
                     break;
@@ -383,6 +426,12 @@ pub fn finish(
     // harness error (exit 2): no verdict.
     for n in not_reproduced.iter().take(5) {
         say(&format!("NOTE: {n}"));
+    }
+    if unconfirmed_candidates > 0 {
+        say(&format!("NOTE: {unconfirmed_candidates} further candidate signature(s) were observed and not put through confirmation (limit: {MAX_REPORTED} reported violations, {MAX_HISTORY_SEARCHES} history searches per run)"));
+        if new_violations == 0 && known_hits == 0 {
+            tally.harness_errors.push(format!("{unconfirmed_candidates} candidate violation(s) left unconfirmed and none confirmed"));
+        }
     }
     if !not_reproduced.is_empty() && new_violations == 0 && known_hits == 0 {
         tally.harness_errors.push(format!("{} observed violation(s) did not replay; no replayable violation in this run", not_reproduced.len()));
